@@ -27,7 +27,8 @@ from rule_build import build, Skip, raw_value
 # "--warnings-error": every warning is an exception (C19: "... or from a warning promoted to an error"); whether a call warns must not
 # depend on what ran before it in the same process
 warnings.simplefilter("error" if "--warnings-error" in sys.argv[3:] else "ignore")
-onp.seterr(all="ignore")
+if "--warnings-error" not in sys.argv[3:]:
+    onp.seterr(all="ignore")        # (with warnings as errors NumPy's default error modes stay: its RuntimeWarnings are raised too)
 
 Q = float(2 ** 20)
 TOL_ADJ = 1e-11
@@ -252,6 +253,17 @@ def observe(cfg):
                     v["late"] = "re-applying the first cotangent after %d calls gives a different result" % ncall
             except Exception as ex:     # noqa
                 v["late"] = "re-applying the first cotangent raised %s" % type(ex).__name__
+        if rows and not v.get("late") and not kink:
+            # two applications of the function that receive THE SAME cotangent object (the rule of `+` hands its g to both operands):
+            # F(x) = f(x) + f(x) has the VJP 2 vjp - unless a rule changes the cotangent it was handed in place
+            try:
+                g2 = onp.array(first_g, copy=True) if isinstance(first_g, onp.ndarray) else first_g
+                vj2, _v2 = make_vjp(lambda z: f(z) + f(z))(xin)
+                twice = realify(onp.conj(vj2(g2)))
+                if twice.shape == rows[0].shape and not onp.allclose(twice, 2.0 * rows[0], rtol=1e-9 if not single else 1e-3, atol=1e-12, equal_nan=True):
+                    v["late"] = "f(x) + f(x): the two applications share one cotangent object and the VJP is not twice the VJP of f"
+            except Exception:     # noqa  (outputs that cannot be added: tuples)
+                pass
         v["struct"] = st if st is not None else struct(vspace(x).zeros())
         if rows is not None:
             RR = onp.array(rows, dtype=float).reshape(m, n)
@@ -407,6 +419,8 @@ def observe(cfg):
             obs["second"] = second_order(f, xin, y0)
         except Exception as ex:     # noqa  a problem of the comparison code itself: not evaluated, counted
             obs["second"] = {"checked": False, "modes": {}, "nbad": 0, "sym_bad": 0, "num_bad": 0, "harness": type(ex).__name__ + ": " + str(ex)[:120]}
+    # ambient NumPy state after the calls (C19: no call may leave the floating-point error modes changed, even if a rule raised)
+    obs["npstate"] = ",".join("%s=%s" % kv for kv in sorted(onp.geterr().items()))
     return obs
 
 
